@@ -149,6 +149,31 @@ def case_entry_points(ctx, s: Subject, ragged=False):
         buf.seek(0)
         return colres(read_parquet(buf)["nest"].array)
     judge("entry.read_parquet", call_real(through_parquet), inp)
+    # 5b. two fields that are windows of ONE parent list array (same offsets buffer, different starts):
+    #     rectangular only if the windows have the same row lengths
+    if len(ty) >= 2 and n >= 1:
+        t0 = ty[0][1]
+        lens = [rng.randint(0, 3) for _ in range(n + 1)]
+        if not is_ragged:
+            lens = [lens[0]] * (n + 1)
+        parent = gen.mk_list_array([[gen.rand_cell(rng, t0) for _ in range(k)] for k in lens], t0)
+        wa, wb = parent.slice(0, n), parent.slice(1, n)
+        truly_ragged = lens[:n] != lens[1:n + 1]
+        st2 = pa.StructArray.from_arrays([wa, wb], names=["a", "b"])
+        phys2 = export.export_col(pa.chunked_array([st2]))
+        ans = ctx.driver.call("init", col=phys2, validate=True)
+
+        def judge2(op, real, model=None):
+            ok = ("err" in real) if truly_ragged else ("ok" in real)
+            ctx.case(op, {"parent_lens": lens, "ty": t0}, real, model, {"err": "ValueError"} if truly_ragged else None,
+                     features=("shared_buffer", f"ragged={truly_ragged}"), spec_ok=ok)
+        judge2("entry.shared_buffer.constructor", call_real(lambda: colres(NestedExtensionArray(st2))), mcol(ans["model"]))
+        judge2("entry.shared_buffer.astype", call_real(lambda: colres(
+            pd.Series(st2, dtype=pd.ArrowDtype(st2.type)).astype(NestedDtype(st2.type)).array)))
+        judge2("entry.shared_buffer.pack_lists", call_real(lambda: colres(pack_lists(pd.DataFrame({
+            "a": pd.Series(wa, dtype=pd.ArrowDtype(wa.type)), "b": pd.Series(wb, dtype=pd.ArrowDtype(wb.type))})).array)))
+        base = pd.Series(NestedExtensionArray(pa.StructArray.from_arrays([wa], names=["a"])))
+        judge2("entry.shared_buffer.with_list_field", call_real(lambda: colres(base.nest.with_list_field("b", wb).array)))
     # 6. take with a ragged fill value
     if is_ragged:
         bad = next(r for r, r0 in zip(rows, s.content["rows"]) if r != r0)
